@@ -200,4 +200,10 @@ int lha_arch_symlink(char *path, char *target)
 	return 1;
 }
 
+int lha_arch_is_symlink(char *path)
+{
+	// Symbolic links are never created.
+	return 0;
+}
+
 #endif /* LHA_ARCH_WINDOWS */
